@@ -7,7 +7,7 @@ EXPLANATION = ("Static MIR rules on helpers::linear_extract: (R12.1) every Ok(()
                "export.get_mut(looked-up name), and every copy reads from take(src, arm's length); (R12.3) every path (constant-flag sensitive) "
                "through the FileContent arm back to the next block read passes an io::copy from that take value; (R12.4) names are registered "
                "only on the true edge of export.contains_key(filename) with the arm's id, and EndOfFile removes the arm's id; (R12.5) a rewind of "
-               "archive.src dominates the loop. Byte equality with get_file is runtime and not decided.")
+               "archive.src dominates the loop; (R12.6) the count of a raw write into a routed writer is used; (R12.7) the drain into io::sink() is reachable only on the edges where the block's id is not registered (constant-flag sensitive), so no early-stop shortcut skips a requested file. Byte equality with get_file is runtime and not decided.")
 TRUSTED = ['rustc MIR', 'std::io::copy / Take semantics (copy drains the take)']
 ASSUMPTIONS = ['io::copy on a Take reads exactly `length` bytes unless the source ends (std semantics)']
 
